@@ -80,6 +80,16 @@ def m_eq(ctx, args):
 def m_ne(ctx, args):
     if ctx.desc.get("local") and ctx.did in ctx.eng.prog.bodies:
         return NotImplemented
+    # the provided method `ne` of a crate type = !eq: inline the type's own (derived / hand-written) eq
+    eng = ctx.eng
+    t0, t1 = ctx.arg_ty(0), ctx.arg_ty(1)
+    if t0 is not None and t1 is not None:
+        sel = eng.select_impl("std::cmp::PartialEq", "eq", (strip_refs(t0), strip_refs(t1)))
+        if sel is not None:
+            did, ga = sel
+            r = eng.inline(ctx.st, ctx.fr, ctx.site, eng.prog.bodies[did], ga, [args[0], args[1]])
+            if r is not None:
+                return ("b", eng.bdd.NOT(eng.tobdd(r)))
     a, b = val(ctx, args[0]), val(ctx, args[1])
     return ("b", ctx.eng.bdd.NOT(ctx.eng.bdd.var(mk_eq(a, b))))
 
@@ -515,6 +525,9 @@ def call_closure(ctx, f, cargs):
             parent = d.get("ctor_of", q)
             from .facts import strip_generics
             adt = strip_generics(parent)
+            last = adt.rsplit("::", 1)[-1]
+            if adt not in eng.prog.adts and last in ("Some", "Ok", "Err") and len(cargs) == 1 and ("option" in q or "result" in q or "prelude" in adt):
+                return {"Some": some, "Ok": ok, "Err": err}[last](cargs[0])
             rec = eng.prog.adts.get(adt)
             variant = 0
             if rec is None:
@@ -575,6 +588,47 @@ def m_opt_map(ctx, args):
         return NONE
     r = guarded(ctx, c, lambda: call_closure(ctx, args[1], [payload(eng, v, 1)]))
     return eng.mk_ite(c, some(r), NONE)
+
+
+@model("std::option::Option::zip")
+def m_opt_zip(ctx, args):
+    eng = ctx.eng
+    a, b = args[0], args[1]
+    c = eng.bdd.AND(variant_cond(eng, a, 1), variant_cond(eng, b, 1))
+    if c == 0:
+        return NONE
+    return eng.mk_ite(c, some(("tuple", (payload(eng, a, 1), payload(eng, b, 1)))), NONE)
+
+
+@model("std::option::Option::filter")
+def m_opt_filter(ctx, args):
+    eng = ctx.eng
+    v = args[0]
+    c = variant_cond(eng, v, 1)
+    if c == 0:
+        return NONE
+    keep = guarded(ctx, c, lambda: call_closure(ctx, args[1], [("refv", payload(eng, v, 1))]))
+    c2 = eng.bdd.AND(c, eng.tobdd(keep))
+    return eng.mk_ite(c2, some(payload(eng, v, 1)), NONE)
+
+
+@model("std::array::map")
+def m_array_map(ctx, args):
+    """`[T; N]::map(f)`: element-wise, in index order."""
+    eng = ctx.eng
+    v = val(ctx, args[0])
+    while v[0] in ("copied", "box"):
+        v = v[1]
+    if v[0] == "array":
+        return ("array", tuple(call_closure(ctx, args[1], [e]) for e in v[1]))
+    n = vec_len(eng, v)
+    t = ctx.arg_ty(0)
+    if n is None and t is not None and strip_refs(t)[0] == "array":
+        n = strip_refs(t)[2]
+        n = n[1] if isinstance(n, tuple) and n and n[0] == "int" else n
+    if isinstance(n, int) and n <= 64:
+        return ("array", tuple(call_closure(ctx, args[1], [eng.index_value(v, ("int", i))]) for i in range(n)))
+    return realise(ctx, ("map", args[1], next(eng.nuid), ("vals", v)))
 
 
 @model("std::result::Result::map")
@@ -957,6 +1011,25 @@ def m_take(ctx, args):
     n = args[1]
     nn = n[1] if n[0] == "int" else (n[1] if n[0] == "cparam" else n)
     return ("iter", ("take", a[1], nn)) if a[0] == "iter" else ("call", ctx.oq, (a, n))
+
+
+@model("std::iter::Iterator::find_map", "std::iter::Iterator::find")
+def m_find_stream(ctx, args):
+    """`stream.find_map(f)` / `stream.find(p)` on an unbounded stream of independent draws = rejection sampling:
+    the result is Some(value of the first accepted draw), which is a fresh draw for which f is Some / p holds."""
+    eng = ctx.eng
+    a = as_iter(ctx, args[0], 0)
+    if a[0] != "iter" or not is_stream(a[1]) or (a[1][0] == "adapter" and a[1][1] == "skip_while"):
+        return ("call", ctx.oq, tuple(args))
+    e, _ = elem_of(a[1], 0)
+    v = instantiate_elem(eng, ctx, e)
+    if ctx.oq.endswith("find_map"):
+        r = call_closure(ctx, args[1], [v])
+        eng.assumed.append(variant_cond(eng, r, 1))
+        return some(payload(eng, r, 1))
+    keep = call_closure(ctx, args[1], [("refv", v)])
+    eng.assumed.append(eng.tobdd(keep))
+    return some(v)
 
 
 @model("std::iter::Iterator::by_ref")
